@@ -114,6 +114,11 @@ class Ctx:
                 self._lisp[rel] = lispread.read_all(self.src(rel), rel)
             except lispread.ReadError as e:
                 raise AnalysisError(f"{rel} does not read: {e}")
+            from . import lispcanon
+
+            k = lispcanon.canonicalise(self._lisp[rel], rel)
+            if k:
+                self.notes.append(f"{rel}: {k} let-bound local(s) renamed to their reference spelling before analysis (alpha-renaming)")
         return self._lisp[rel]
 
     def rust(self, rel: str):
